@@ -16,12 +16,20 @@ Ltac kill_table :=
   cbn; try discriminate; auto.
 
 Lemma decide_documented : forall c o,
+  cfg_wfb c = true ->
   decide c o = Done -> req_met c (documented o (c_status c) (c_type c)) = true.
 Proof.
-  intros [s t rs m g gc al sz] o.
-  unfold decide, decide_gen, controls_all_supply, documented, req_met, done, any_right, all_rights, alt_met;
-    cbn [c_status c_type c_rights c_manager c_gov c_govctl c_allsupply c_supply_zero].
-  destruct o, s, t; cbn [st_in existsb status_eqb is_restricted orb andb negb]; kill_table.
+  intros [s t rs m g gc al sz act] o.
+  unfold cfg_wfb, decide, decide_gen, controls_all_supply, documented, req_met, done, any_right, all_rights, alt_met;
+    cbn [c_status c_type c_rights c_manager c_gov c_govctl c_allsupply c_supply_zero c_activated].
+  intros Hwf.
+  (* under the invariant "manager and never activated" is just "manager", and an active marker has none *)
+  assert (Hm : (m && negb act) = m) by (destruct m, act, s; cbn in Hwf; try discriminate; reflexivity).
+  assert (Ha : s = SActive -> m = false)
+    by (intros ->; destruct m, act; cbn in Hwf; try discriminate; reflexivity).
+  clear Hwf. rewrite Hm. clear Hm.
+  destruct o, s, t; try rewrite (Ha eq_refl); clear Ha;
+    cbn [st_in existsb status_eqb is_restricted orb andb negb]; kill_table.
 Qed.
 
 (** Before fix 374f3de02 the "holds the whole supply" alternative of AddAccess / RemoveAccess was
@@ -31,16 +39,55 @@ Lemma zero_supply_prefix_refuted : exists c o,
   req_met c (documented o (c_status c) (c_type c)) = false /\ decide c o = Denied.
 Proof.
   exists {| c_status := SActive; c_type := TCoin; c_rights := 0; c_manager := false; c_gov := false;
-            c_govctl := false; c_allsupply := true; c_supply_zero := true |}, OAddAccess.
+            c_govctl := false; c_allsupply := true; c_supply_zero := true; c_activated := true |}, OAddAccess.
   vm_compute. repeat split.
+Qed.
+
+(** The well-formedness hypothesis is needed: were a manager to survive activation, the manager
+    escapes of SetMarkerDenomMetadata and DeleteMarker would let it act without any right. *)
+Lemma surviving_manager_refuted : exists c o,
+  cfg_wfb c = false /\ c_rights c = 0%N /\ c_status c = SActive /\
+  decide c o = Done /\ req_met c (documented o (c_status c) (c_type c)) = false.
+Proof.
+  exists {| c_status := SActive; c_type := TCoin; c_rights := 0; c_manager := true; c_gov := false;
+            c_govctl := true; c_allsupply := false; c_supply_zero := false; c_activated := true |}, OSetMetadata.
+  vm_compute. repeat split.
+Qed.
+
+(** * The lifecycle keeps the invariant, over every history of transitions (incl. governance). *)
+Lemma set_status_wf l s : life_wfb l = true -> life_wfb (set_status l s) = true.
+Proof.
+  destruct l as [st m a]. unfold life_wfb, set_status, set_status_gen; cbn [l_status l_manager l_activated].
+  destruct s, m, a, st; cbn; auto.
+Qed.
+
+Lemma life_step_wf l o : life_wfb l = true -> life_wfb (fst (life_step l o)) = true.
+Proof.
+  intros H. unfold life_step, life_step_gen.
+  destruct o as [| | | |t];
+    repeat match goal with |- context [if ?b then _ else _] => destruct b end;
+    try (destruct (l_status l)); cbn [fst]; auto using set_status_wf.
+Qed.
+
+Lemma life_run_wf ops : forall l, life_wfb l = true -> life_wfb (life_run l ops) = true.
+Proof.
+  unfold life_run, life_run_gen. induction ops as [|o ops IH]; intros l H; cbn [fold_left]; [exact H|].
+  apply IH. apply (life_step_wf l o H).
+Qed.
+
+Lemma manager_cleared_only_from_finalized_refuted : exists l ops,
+  life_wfb l = true /\ life_wfb (life_run_gen set_status_from_finalized_only l ops) = false.
+Proof.
+  exists {| l_status := SProposed; l_manager := true; l_activated := false |}, [LGov SActive].
+  vm_compute. split; reflexivity.
 Qed.
 
 (** Cancelling a cancelled marker is the only success that is not a [Done], and it changes nothing. *)
 Lemma noop_only_cancel_of_cancelled : forall c o,
   decide c o = NoOp -> o = OCancel /\ c_status c = SCancelled /\ status_after c o = SCancelled.
 Proof.
-  intros [s t rs m g gc al sz] o. unfold status_after, decide, decide_gen, done;
-    cbn [c_status c_type c_rights c_manager c_gov c_govctl c_allsupply c_supply_zero].
+  intros [s t rs m g gc al sz act] o. unfold status_after, decide, decide_gen, done;
+    cbn [c_status c_type c_rights c_manager c_gov c_govctl c_allsupply c_supply_zero c_activated].
   destruct o, s; cbn [st_in existsb status_eqb orb andb];
     repeat match goal with |- context [if ?b then _ else _] => destruct b end;
     intros H; try discriminate; auto.
@@ -50,12 +97,12 @@ Qed.
 Lemma denied_keeps_status : forall c o, decide c o = Denied -> status_after c o = c_status c.
 Proof. intros c o H. unfold status_after. rewrite H. reflexivity. Qed.
 
-(** The exhaustive agreement over the finite domain (5 statuses x 2 types x 256 masks x 2^5 flags
+(** The exhaustive agreement over the finite domain (5 statuses x 2 types x 256 masks x 2^6 flags
     x 15 endpoints), by computation: wherever the model lets a call through, the documented
     requirement is met. *)
 Definition table_ok (c : cfg) (o : op) : bool :=
   match decide c o with
-  | Done => req_met c (documented o (c_status c) (c_type c))
+  | Done => implb (cfg_wfb c) (req_met c (documented o (c_status c) (c_type c)))
   | _ => true
   end.
 
